@@ -264,6 +264,8 @@ is_int = z3.Function('py_is_int', Obj, z3.BoolSort())
 is_name = z3.Function('py_is_name', Obj, z3.BoolSort())
 is_seq = z3.Function('py_is_seq', Obj, z3.BoolSort())
 
+is_dict = z3.Function('py_is_dict', Obj, z3.BoolSort())
+is_list = z3.Function('py_is_list', Obj, z3.BoolSort())
 truthy = z3.Function('truthy', Obj, z3.BoolSort())          # truth value of an opaque object
 py_eq = z3.Function('py_eq', Obj, Obj, z3.BoolSort())       # a == b for opaque objects
 name_lt = z3.Function('name_lt', Name, Name, z3.BoolSort())  # str <
@@ -272,7 +274,8 @@ typeof = z3.Function('typeof', Obj, Obj)                     # type(x) / x.__cla
 subtype = z3.Function('subtype', Obj, Obj, z3.BoolSort())    # issubclass
 dict_nonempty = z3.Function('dict_nonempty', ObjMap, z3.BoolSort())
 dict_witness = z3.Function('dict_witness', ObjMap, Obj)
-dict_keys = z3.Function('dict_keys', ObjMap, SeqO)           # iteration order of a dict's keys
+dict_keys = z3.Function('dict_keys', ObjMap, SeqO)
+dict_update = z3.Function('dict_update', ObjMap, ObjMap, ObjMap)   # old.update(src)           # iteration order of a dict's keys
 
 
 def prelude_axioms():
@@ -282,6 +285,7 @@ def prelude_axioms():
     s = z3.Const('ax_s', SeqO)
     o, o2 = z3.Consts('ax_o ax_o2', Obj)
     m = z3.Const('ax_m', ObjMap)
+    m2 = z3.Const('ax_m2', ObjMap)
     k = z3.Int('ax_k')
     k2 = z3.Int('ax_k2')
     ax = []
@@ -300,6 +304,11 @@ def prelude_axioms():
         z3.ForAll([n], truthy(box_name(n)) == (n != EMPTYNAME), patterns=[box_name(n)]),
         z3.ForAll([i], truthy(box_int(i)) == (i != 0), patterns=[box_int(i)]),
         NONE != NOTIMPL, NONE != ABSENT, NOTIMPL != ABSENT,
+        z3.Not(is_dict(NONE)), z3.Not(is_list(NONE)), z3.Not(is_seq(NONE)), z3.Not(is_dict(ABSENT)),
+        z3.ForAll([s], z3.And(z3.Not(is_dict(box_seq(s))), z3.Not(is_list(box_seq(s)))), patterns=[box_seq(s)]),
+        z3.ForAll([o], z3.Not(z3.And(is_dict(o), is_list(o))), patterns=[is_dict(o), is_list(o)]),
+        z3.ForAll([o], z3.Not(z3.And(is_dict(o), is_seq(o))), patterns=[is_dict(o), is_seq(o)]),
+        z3.ForAll([o], z3.Not(z3.And(is_list(o), is_seq(o))), patterns=[is_list(o), is_seq(o)]),
         z3.Not(truthy(NONE)),
         z3.ForAll([b], truthy(box_bool(b)) == b, patterns=[box_bool(b)]),
         z3.ForAll([b], z3.And(box_bool(b) != NONE, box_bool(b) != ABSENT), patterns=[box_bool(b)]),
@@ -317,6 +326,8 @@ def prelude_axioms():
         z3.ForAll([m], z3.Implies(dict_nonempty(m), m[dict_witness(m)] != ABSENT), patterns=[dict_nonempty(m)]),
         z3.ForAll([o], EMPTYMAP[o] == ABSENT, patterns=[EMPTYMAP[o]]),
         z3.Not(dict_nonempty(EMPTYMAP)),
+        z3.ForAll([m, m2, o], dict_update(m, m2)[o] == z3.If(m2[o] != ABSENT, m2[o], m[o]),
+                  patterns=[dict_update(m, m2)[o]]),
     ]
     return ax
 
